@@ -107,17 +107,40 @@ pub fn csi(seg: &[u8]) -> Option<(Option<u8>, &[u8], &[u8], u8)> {
     Some((private, &rest[..np], &rest[np..np + ni], fin))
 }
 
+/// The raw modifier word of a `KeyMod`, read without any of its accessors: the derived `Hash` implementation
+/// feeds the private `bits: u32` to the hasher as it is.
 pub fn mod_bits(m: KeyMod) -> u64 {
-    let mut bits = 0;
-    for (i, k) in [KeyMod::SHIFT, KeyMod::ALT, KeyMod::CTRL, KeyMod::SUPER, KeyMod::HYPER, KeyMod::META, KeyMod::CAPSLOCK, KeyMod::NUMLOCK, KeyMod::PRESS]
-        .iter()
-        .enumerate()
-    {
-        if m.contains(*k) {
-            bits |= 1 << i;
+    use std::hash::{Hash, Hasher};
+    struct Grab(Vec<u8>);
+    impl Hasher for Grab {
+        fn finish(&self) -> u64 {
+            0
+        }
+        fn write(&mut self, bytes: &[u8]) {
+            self.0.extend_from_slice(bytes);
         }
     }
-    bits
+    let mut g = Grab(Vec::new());
+    m.hash(&mut g);
+    let mut v: u64 = 0;
+    for (i, b) in g.0.iter().take(8).enumerate() {
+        v |= (*b as u64) << (8 * i);
+    }
+    if cfg!(target_endian = "big") {
+        v = (v as u32).swap_bytes() as u64;
+    }
+    v
+}
+
+/// the nine defined flags: shift alt ctrl super hyper meta capslock numlock press (`KeyMod::ALL`)
+pub const MOD_ALL: u64 = 0x1ff;
+
+/// well-formedness of a modifier set: nothing outside the defined flags
+fn check_mod_range(out: &mut Vec<Fail>, what: &str, m: KeyMod) {
+    let raw = mod_bits(m);
+    if raw & !MOD_ALL != 0 {
+        fail(out, "modifier word has bits outside the defined modifier flags", format!("{what}: bits within {MOD_ALL:#x}"), format!("{raw:#x}"));
+    }
 }
 
 // ---------------------------------------------------------------- SGR colours
@@ -504,6 +527,7 @@ pub fn check_event(out: &mut Vec<Fail>, seg: &[u8], ev: &TerminalEvent) -> &'sta
             "raw"
         }
         TerminalEvent::Key(key) => {
+            check_mod_range(out, "key", key.mode);
             if let KeyName::Char(c) = key.name {
                 check_char(out, seg, c);
                 if !seg.is_empty() && (seg[0] >= 0x80 || ((0x20..=0x7e).contains(&seg[0]) && key.mode == KeyMod::EMPTY)) {
@@ -522,6 +546,7 @@ pub fn check_event(out: &mut Vec<Fail>, seg: &[u8], ev: &TerminalEvent) -> &'sta
             "key"
         }
         TerminalEvent::Mouse(m) => {
+            check_mod_range(out, "mouse", m.mode);
             match csi(seg) {
                 Some((Some(b'<'), params, _, fin)) if fin == b'm' || fin == b'M' => match nums_strict(params, 3) {
                     Some(v) => {
